@@ -37,7 +37,7 @@ def gen(rng, tier):
         for l, t in _ws.parse_print(rng):
             if l.startswith("from_str "):
                 yield l, t
-    reps = 12 if tier == "thorough" else 2
+    reps = 12 if tier == "thorough" else 6
     for cfg in (CFGS17 if tier == "thorough" else QUICK17):
         w, n = wn(cfg)
         W = w * n
@@ -88,14 +88,14 @@ def gen(rng, tier):
                             k = rng.choice([0, 1, W - 1, W, W + 1, rng.randrange(W), rng.randrange(W), M - 1, M >> 1, (1 << 32) % M, ((1 << 32) + 1) % M])
                             yield f"{sh}_{kind}_{f} {s}{cfg} {mode} {hx(a)} {hx(k % M)}", t
                     # Sum / Product
-                    k = rng.randrange(0, 5)
+                    k = rng.choice([0, 1, 2, 3, 4, 4, 5, 8, 9, 16, 17, 33])
                     small = rng.random() < 0.6
                     xs = [(rng.randrange(0, 12) if small else value(rng, w, n)[1]) for _ in range(k)]
                     if sg and small:
                         xs = [pat(x - 5, W) for x in xs]
                     lst = ",".join(hx(x) for x in xs) or "-"
                     for op in ("sum", "sum_ref", "product", "product_ref"):
-                        yield f"{op} {s}{cfg} {mode} {lst}", "fold%d" % k
+                        yield f"{op} {s}{cfg} {mode} {lst}", "fold%d" % min(k, 6)
                     yield f"default {s}{cfg} {mode}", "default"
                     t, a, b = pair(rng, w, n)
                     for op in ("cmp_partial_cmp", "cmp_ord_cmp", "cmp_cmp_inh", "cmp_eq", "cmp_eq_inh", "cmp_ne", "cmp_lt", "cmp_le", "cmp_gt", "cmp_ge"):
